@@ -1,4 +1,5 @@
 import argparse, importlib, os, sys
+sys.setrecursionlimit(20000)
 sys.path.insert(0, os.path.dirname(os.path.abspath(__file__)))
 sys.path.insert(0, os.path.join(os.path.dirname(os.path.dirname(os.path.abspath(__file__))), "props"))
 if os.environ.get("VERIF_REPO"):
